@@ -130,6 +130,10 @@ func valKey(v Val) string {
 		return "reader:" + v.S.Name
 	case *MapVal:
 		return "map:" + v.Name
+	case *StrForm:
+		return v.Key()
+	case *LimitedVal:
+		return "limit(" + v.R.S.Name + "," + v.N.Key() + ")"
 	}
 	return fmt.Sprintf("%v", v)
 }
@@ -285,6 +289,39 @@ type Stream struct {
 
 // ReaderVal is a reader over a stream.
 type ReaderVal struct{ S *Stream }
+
+// LimitedVal is io.LimitReader(r, n).
+type LimitedVal struct {
+	R *ReaderVal
+	N *Form
+}
+
+// StrForm is a string built by concatenating constant pieces and decimal
+// renderings of integer forms (fmt %d, strconv.Itoa).
+type StrForm struct {
+	Parts []Val // *StrVal or *DecVal
+}
+
+// DecVal is the decimal rendering of an integer value.
+type DecVal struct{ X *Form }
+
+func (s *StrForm) Key() string {
+	var sb strings.Builder
+	sb.WriteString("str[")
+	for i, p := range s.Parts {
+		if i > 0 {
+			sb.WriteString(" + ")
+		}
+		switch x := p.(type) {
+		case *StrVal:
+			fmt.Fprintf(&sb, "%q", x.S)
+		case *DecVal:
+			sb.WriteString("dec(" + x.X.Key() + ")")
+		}
+	}
+	sb.WriteString("]")
+	return sb.String()
+}
 
 // IterVal is a map iterator (ssa.Range).
 type IterVal struct {
